@@ -2381,7 +2381,11 @@ class Array:
         """
         if not isinstance(other, Array) or not np.isscalar(prefactor):
             raise ValueError(f'wrong argument types: {type(prefactor)!r}, {type(other)!r}')
+        dtype = np.result_type(self.dtype, other.dtype, prefactor)
         self.ibinary_blockwise(np.add, other.__mul__(prefactor))
+        if prefactor != 0.0:
+            # the stored blocks of `self` and `other` alone need not give the common dtype
+            self._iset_dtype(dtype)
         return self
 
     @use_cython(replacement='Array_iscale_prefactor')
@@ -2397,7 +2401,17 @@ class Array:
             self._qdata = np.empty((0, self.rank), np.intp)
             self._qdata_sorted = True
             return self
-        return self.iunary_blockwise(np.multiply, prefactor)
+        dtype = np.result_type(self.dtype, prefactor)
+        self.iunary_blockwise(np.multiply, prefactor)
+        # without stored blocks, `iunary_blockwise` can not update the dtype
+        return self._iset_dtype(dtype)
+
+    def _iset_dtype(self, dtype):
+        """Convert `self` to the given `dtype` in place, if it is not already of that type."""
+        if self.dtype != dtype:
+            self.dtype = dtype
+            self._data = [d.astype(dtype) for d in self._data]
+        return self
 
     def __add__(self, other):
         """Return ``self + other``."""
